@@ -1,11 +1,12 @@
-import SigModel.Driver.Loop
+import SigModel.Driver.HubCommon
 
-/-! Driver for C04 — stub (no model yet). -/
+/-! Driver for C04: the shared hub model (`Model/Hub.lean`) with this property's judge. -/
 namespace SigModel.Driver.C04
+open SigModel.Proto SigModel.Hub SigModel.Driver.HubCommon
 
-structure St where
-  dummy : Unit := ()
+abbrev St := HubCommon.St
 
-def step (st : St) (_op _impl : List String) : St × String × String := (st, "bad-op", "na")
+def step (st : St) (op impl : List String) : St × String × String :=
+  stepWith (fun st _ _ impl => verdictOf ((judgeTables impl).filter (fun e => !(hasPrefix "residue" e) && !(hasPrefix "listener" e)) ++ judgeViews st.views impl)) st op impl
 
 end SigModel.Driver.C04
